@@ -18,7 +18,7 @@ PROP = {'level': 'proof',
           'what Miri sees on the sampled inputs, the repr(C) cast in ArrayBuilder::build, union transmutes, '
           'the cstr pointer walk (relies on CStr\'s invariant), ptr::is_null/nonnull on dangling pointers, drop '
           'glue; array macros / ArrayBuilder / ArrayConsumer init counters are C11/C15\'s theorems.',
- 'sources': [('harness', 'c01'), ('programs', 'c01'), ('harness', 'c15')],
+ 'sources': [('harness', 'c01'), ('programs', 'c01'), ('harness', 'c15'), ('programs', 'c15')],
  'exhaustive': True,
  'rule': 'Also runs the C15 drop-ledger histories of ArrayConsumer/ArrayBuilder (a double drop or a drop of a never-written slot is UB). Exhaustive small scopes: every slice length 0..=L (L=6 quick, 10 thorough) x every index / index '
          'pair from 0..=len+2 plus isize::MAX, isize::MAX+1, usize::MAX-1, usize::MAX x every slice function '
